@@ -266,10 +266,11 @@ func z3Body(sc z3Scenario) func() {
 				})
 			}
 			err := PullModel(ctx, ztName, &registryOptions{}, func(api.ProgressResponse) {})
-			if clean && err != nil {
+			for retry := 0; clean && err != nil && retry < 2; retry++ {
 				// "a later retry can still succeed": once everything left over from the earlier attempts has
-				// settled, a fault-free pull must succeed (a pull issued while a cancelled download is still
-				// winding down may legitimately join it and share its error)
+				// settled, a fault-free pull must succeed - possibly the one after next: a pull issued while a
+				// cancelled download is still winding down joins it and shares its error, and a pull that completes
+				// a download from bad part files fails verification, removes the blob and only then starts afresh
 				mcrt.Observe("clean attempt: %v; retrying after quiescence", z3Err(err))
 				mcrt.WaitIdle(false) // (no clock advance: the code leaks running tickers, so "all timers elapsed" never comes)
 				err = PullModel(ctx, ztName, &registryOptions{}, func(api.ProgressResponse) {})
